@@ -29,7 +29,7 @@ def bounds(tier):
                    surfaces="degrees {1,2,3}^2 over K'(p) level 1", volumes="degrees {1,2}^3 over 3 reps",
                    sample_sizes=SAMPLE_SIZES['quick']),
         thorough=dict(curves='p<=5 over K(p,3,8) (p<=3), K(p,3,4) (p=4,5)', surfaces="degrees {1,2,3}^2 over full K'(p)",
-                      volumes="degrees {1,2,3}^3 over 3-4 reps, every unit net", sample_sizes=SAMPLE_SIZES['thorough']))[tier]
+                      volumes="degrees {1,2,3}^3 over 3-4 reps, every unit net for volumes with <= 24 control points, corner/edge/interior unit nets for larger ones", sample_sizes=SAMPLE_SIZES['thorough']))[tier]
 
 
 # ----------------------------------------------------------------------------------------
@@ -115,7 +115,7 @@ def gen_cases(tier, seed):
             sz = (len(ku) - pu - 1, len(kv) - pv - 1, len(kw) - pw - 1)
             if len(set(sz)) < 3 and (q or len(set(sz)) < 2):
                 continue
-            vs = _variants([ku, kv, kw], [pu, pv, pw], tier, full_units=not q)
+            vs = _variants([ku, kv, kw], [pu, pv, pw], tier, full_units=(not q) and sz[0] * sz[1] * sz[2] <= 24)   # every unit net for small volumes
             for d in (vs[:2] + vs[-2:]) if q else vs:
                 cases.append(dict(shape=d, grid=(pu + pv + pw) <= 4))
     # volumes whose directions have different domains: unclamped in one direction, and non-normalised ranges per direction
@@ -322,7 +322,9 @@ def _grid(case, ctx, obj, model, desc, pts, scale, feats):
         first = R.eval_point(model, [lo for lo, hi in doms])
         last = R.eval_point(model, [hi for lo, hi in doms])
         ctx.close('C01.grid.corners', [ep[0], ep[-1]], [first, last], 1e-12, scale, rc, f)
-        if clamped and not desc['rational'] and feats['domain_length_1'] is not None:
+        # bit-exact end points where the arithmetic of the end spans is exact (dyadic knots); elsewhere the 1e-12 check above
+        dyadic = all(F(k).denominator <= 2 ** 20 for U in model['kvs'] for k in U)
+        if clamped and not desc['rational'] and feats['domain_length_1'] is not None and dyadic:
             ctx.check('C01.grid.corners_exact', list(ep[0]) == list(pts[0]) and list(ep[-1]) == list(pts[-1]), rc, f,
                       [pts[0], pts[-1]], [ep[0], ep[-1]])
     # the documented segment options evaluate(start=, stop=) / (start_u=, stop_u=, ...): a different sub-range per direction,
